@@ -40,12 +40,35 @@ def _write_comp(comp, bpm):
             return f.read()
 
 
-def _read(ctx, data):
+_OTHER = None
+
+
+def _other_file():
+    """a fixed, different MIDI file read first through the same reader object (two tracks, 7/8, key f#, tempo 77)"""
+    global _OTHER
+    if _OTHER is None:
+        cd = {"title": "", "subtitle": "", "author": "", "tracks": [
+            {"name": "other", "instr": {"kind": "midi", "nr": 99, "name": ""}, "bars": [{"key": "f#", "meter": [7, 8], "entries": [
+                {"v": [8, 0, 1, 1], "notes": None}, {"v": [4, 1, 1, 1], "notes": [["A", 5, 9, 33], ["C#", 6, 9, 44]]}, {"v": [4, 1, 1, 1], "notes": None}]}]},
+            {"name": "second", "instr": None, "bars": [{"key": "f#", "meter": [7, 8], "entries": [{"v": [8, 0, 1, 1], "notes": [["F#", 2, 3, 120]]}]}]}]}
+        _OTHER = _write_comp(mg.build_comp(cd), 77)
+    return _OTHER
+
+
+def _read(ctx, data, reuse=False):
     with tempfile.TemporaryDirectory(prefix="verif_c17_") as d:
         path = os.path.join(d, "r.mid")
         with open(path, "wb") as f:
             f.write(data)
-        return ctx.ok("read", MFI.MIDI_to_Composition, path)
+        if not reuse:
+            return ctx.ok("read", MFI.MIDI_to_Composition, path)
+        # the same reader object used for another file first
+        other = os.path.join(d, "o.mid")
+        with open(other, "wb") as f:
+            f.write(_other_file())
+        m = MFI.MidiFile()
+        ctx.ok("read", m.MIDI_to_Composition, other)
+        return ctx.ok("read", m.MIDI_to_Composition, path)
 
 
 def _flat_real(track):
@@ -76,7 +99,7 @@ def check_roundtrip(ctx, case):
         ctx.label("writer-failed")
         ctx.note_case(False, [])
         return
-    r = _read(ctx, data)
+    r = _read(ctx, data, reuse=bool(case.get("reuse")))
     if failed(r):
         return
     if not ctx.check(isinstance(r, tuple) and len(r) == 2, "read/result-shape", repr(type(r))):
@@ -187,12 +210,13 @@ def _cfg(**kw):
 
 
 def sub_random(ctx, shard, n):
-    strat = st.fixed_dictionaries({"comp": SG.comp_st(_cfg()), "bpm": st.integers(4, 1000) | st.integers(4, 7000), "uniform": st.just(False)})
+    strat = st.fixed_dictionaries({"comp": SG.comp_st(_cfg()), "bpm": st.integers(4, 1000) | st.integers(4, 7000), "uniform": st.just(False),
+                                   "reuse": st.booleans()})
     ctx.given("roundtrip", check_roundtrip, strat, 300 if ctx.quick else 1500)
 
 
 def sub_uniform(ctx, shard, n):
-    strat = st.fixed_dictionaries({"comp": SG.comp_st(_cfg(same_meter_key=True)), "bpm": st.integers(4, 1000), "uniform": st.just(True)})
+    strat = st.fixed_dictionaries({"comp": SG.comp_st(_cfg(same_meter_key=True)), "bpm": st.integers(4, 1000), "uniform": st.just(True), "reuse": st.booleans()})
     ctx.given("roundtrip", check_roundtrip, strat, 300 if ctx.quick else 1500)
 
 
